@@ -37,7 +37,64 @@ func (p *Program) newExec(mode ExecMode) *Exec {
 		maxPath: maxPaths, inlinedFns: map[string]bool{}, usedContracts: map[string]bool{}}
 }
 
+// genObligations runs the executor; when the function (or a callee executed in place) has loops
+// without annotations, candidate invariants are inferred Houdini-style: candidates whose
+// inv.init / inv.pres obligation is not discharged are dropped and the function is re-run, and
+// candidate variants are tried in turn. Surviving candidates are ordinary proved invariants.
 func (p *Program) genObligations(fn *ssa.Function, mode ExecMode, rel *relCtx) (rep *FnReport) {
+	for iter := 0; iter < 8; iter++ {
+		rep = p.genObligationsOnce(fn, mode, rel)
+		var auto []*Obligation
+		for _, o := range rep.Obs {
+			if strings.Contains(o.Kind, ".auto.") || (strings.HasPrefix(o.Kind, "decreases.loop") && o.autoVariant != "") {
+				auto = append(auto, o)
+			}
+		}
+		if len(auto) == 0 {
+			return rep
+		}
+		discharge(auto, dischargeOpts{timeoutMs: 3000, workers: 16})
+		changed := false
+		invDropped := false
+		for _, o := range auto {
+			if strings.Contains(o.Kind, ".auto.") && !(o.Result != nil && o.Result.Status == "unsat") {
+				invDropped = true
+			}
+		}
+		p.mu.Lock()
+		for _, o := range auto {
+			if o.Result != nil && o.Result.Status == "unsat" {
+				continue
+			}
+			if !strings.Contains(o.Kind, ".auto.") && invDropped {
+				o.Result = nil
+				continue // try the same variant again once the invariants are stable
+			}
+			if strings.Contains(o.Kind, ".auto.") {
+				// Kind: inv.init[k].auto.x.y  -> loop key fn/loopk, label auto.x.y
+				i := strings.Index(o.Kind, "[")
+				j := strings.Index(o.Kind, "]")
+				lk := o.Fn + "/loop" + o.Kind[i+1:j]
+				label := o.Kind[j+2:]
+				if !p.autoDead[lk+"|"+label] {
+					p.autoDead[lk+"|"+label] = true
+					changed = true
+				}
+			} else if o.autoVariant != "" {
+				p.autoVar[o.autoVariant]++
+				changed = true
+			}
+			o.Result = nil
+		}
+		p.mu.Unlock()
+		if !changed {
+			return rep
+		}
+	}
+	return rep
+}
+
+func (p *Program) genObligationsOnce(fn *ssa.Function, mode ExecMode, rel *relCtx) (rep *FnReport) {
 	ex := p.newExec(mode)
 	ex.rel = rel
 	rep = &FnReport{Key: p.keyOf(fn)}
